@@ -12,9 +12,15 @@ package driver
 
 import (
 	"bytes"
+	"encoding/json"
 	"fmt"
 	"sort"
+	"strconv"
 	"strings"
+
+	"github.com/google/pprof/internal/binutils"
+	"github.com/google/pprof/internal/plugin"
+	"github.com/google/pprof/internal/verifsim/simexec"
 
 	"github.com/google/pprof/internal/verifsim/simos"
 	"github.com/google/pprof/internal/verifsim/simrt"
@@ -42,10 +48,12 @@ func runC20(x *xctx) *violation {
 		return c20Options(x)
 	case m < 7:
 		return c20TempFiles(x)
-	case m < 9:
+	case m < 8:
 		return c20WebMix(x)
-	default:
+	case m < 9:
 		return c20Fetch(x)
+	default:
+		return c20Tools(x)
 	}
 }
 
@@ -426,5 +434,179 @@ func c20Fetch(x *xctx) *violation {
 		x.nontriv[fmt.Sprintf("fetch:%v:%016x", c.describe(), got.res.SwitchSig)] = true
 	}
 	x.sample = map[string]interface{}{"mode": "fetch", "sources": c.describe()}
+	return nil
+}
+
+// ---- scenario 6: several addresses symbolized concurrently through one shared ObjFile ----
+
+// a2lSession scripts `addr2line -aif -e file`: for every input line (a hex
+// address) it prints the address and then (function, file:line) pairs, inlined
+// frames first. A pure function of its input.
+type a2lSession struct{}
+
+func toolFrames(addr uint64) []plugin.Frame {
+	n := 1 + int(addr%3)
+	fr := make([]plugin.Frame, n)
+	for i := range fr {
+		fr[i] = plugin.Frame{Func: fmt.Sprintf("fn_%x_%d", addr, i), File: fmt.Sprintf("/src/f%d.c", (addr+uint64(i))%4), Line: int(10 + (addr+uint64(i))%80)}
+	}
+	return fr
+}
+
+func (a2lSession) Line(in string) []string {
+	v, err := strconv.ParseUint(strings.TrimSpace(in), 16, 64)
+	if err != nil {
+		return []string{"0x0", "??", "??:0"}
+	}
+	out := []string{fmt.Sprintf("0x%016x", v)}
+	if v == ^uint64(0) {
+		return append(out, "??", "??:0")
+	}
+	for _, f := range toolFrames(v) {
+		out = append(out, f.Func, fmt.Sprintf("%s:%d", f.File, f.Line))
+	}
+	return out
+}
+
+// llvmSession scripts `llvm-symbolizer --inlining --output-style=JSON`.
+type llvmSession struct{}
+
+func (llvmSession) Line(in string) []string {
+	f := strings.Fields(in)
+	if len(f) < 3 {
+		return []string{"{}"}
+	}
+	v, _ := strconv.ParseUint(strings.TrimPrefix(f[len(f)-1], "0x"), 16, 64)
+	type sym struct {
+		Line         int    `json:"Line"`
+		Column       int    `json:"Column"`
+		FunctionName string `json:"FunctionName"`
+		FileName     string `json:"FileName"`
+		StartLine    int    `json:"StartLine"`
+	}
+	var doc struct {
+		Address    string `json:"Address"`
+		ModuleName string `json:"ModuleName"`
+		Symbol     []sym  `json:"Symbol"`
+	}
+	doc.Address, doc.ModuleName = f[len(f)-1], f[1]
+	for _, fr := range toolFrames(v) {
+		doc.Symbol = append(doc.Symbol, sym{Line: fr.Line, FunctionName: fr.Func, FileName: fr.File})
+	}
+	b, _ := json.Marshal(doc)
+	return []string{string(b)}
+}
+
+func framesString(fr []plugin.Frame, err error) string {
+	if err != nil {
+		return "error: " + err.Error()
+	}
+	var sb strings.Builder
+	for _, f := range fr {
+		fmt.Fprintf(&sb, "%s@%s:%d;", f.Func, f.File, f.Line)
+	}
+	return sb.String()
+}
+
+func c20Tools(x *xctx) *violation {
+	t := x.t
+	K := simrt.KGen
+	freshProcess(true)
+	useLLVM := t.Bool(K, 40)
+	simexec.Register("addr2line", &simexec.Program{Session: func([]string) simexec.LineSession { return a2lSession{} }})
+	tools := "addr2line:/sim/testdata/bin"
+	if useLLVM {
+		simexec.Register("llvm-symbolizer", &simexec.Program{Session: func([]string) simexec.LineSession { return llvmSession{} }})
+		tools += ",llvm-symbolizer:/sim/testdata/bin"
+	}
+	ntasks := 2 + t.Choose(K, 3)
+	addrs := make([][]uint64, ntasks)
+	for i := range addrs {
+		n := 1 + t.Choose(K, 3)
+		for j := 0; j < n; j++ {
+			addrs[i] = append(addrs[i], uint64(0x1000+0x10*t.Choose(K, 64)))
+		}
+	}
+	toggler := t.Bool(K, 40)
+	run := func(cfg simrt.Config, concurrent bool) ([][]string, simrt.Result, error) {
+		got := make([][]string, ntasks)
+		var openErr error
+		cfg.Tape = t
+		res := simrt.Exec(cfg, func() {
+			bu := &binutils.Binutils{}
+			bu.SetTools(tools)
+			f, err := bu.Open("/bin/not-on-disk", 0x1000, 0x9000, 0, "")
+			if err != nil {
+				openErr = err
+				return
+			}
+			work := func(i int) {
+				got[i] = make([]string, len(addrs[i]))
+				for j, a := range addrs[i] {
+					got[i][j] = framesString(f.SourceLine(a))
+					if _, err := f.ObjAddr(a); err != nil {
+						got[i][j] += " objaddr: " + err.Error()
+					}
+				}
+			}
+			if !concurrent {
+				for i := range addrs {
+					work(i)
+				}
+			} else {
+				var hs []*simrt.Handle
+				for i := range addrs {
+					i := i
+					hs = append(hs, simrt.GoJoinable(fmt.Sprintf("sym%d", i), func() { work(i) }))
+				}
+				if toggler {
+					hs = append(hs, simrt.GoJoinable("tools", func() {
+						bu.SetFastSymbolization(true)
+						_ = bu.String()
+						bu.SetFastSymbolization(false)
+					}))
+				}
+				for _, h := range hs {
+					simrt.Join(h)
+				}
+			}
+			f.Close()
+		})
+		x.note(res)
+		return got, res, openErr
+	}
+	want, rres, err := run(simrt.Config{Strategy: simrt.StratRunToBlock}, false)
+	if err != nil {
+		return violf("tools-setup", "Binutils.Open failed in the scripted environment: %v", err)
+	}
+	if v := resultViolation(rres); v != nil {
+		v.Class = "seq-" + v.Class
+		return v
+	}
+	for i := range want {
+		for j, s := range want[i] {
+			exp := framesString(toolFrames(addrs[i][j]), nil)
+			if s != exp {
+				return violf("tools-setup", "sequential SourceLine(%#x) gave %q, the scripted tool answers %q", addrs[i][j], s, exp)
+			}
+		}
+	}
+	freshProcess(false)
+	got, res, _ := run(c20Sched(t, 300), true)
+	if v := resultViolation(res); v != nil {
+		return v
+	}
+	for i := range want {
+		for j := range want[i] {
+			if got[i][j] != want[i][j] {
+				return violf("tools-crosstalk", "concurrent SourceLine(%#x) returned %q, sequentially it returns %q (requests and responses of different callers interleaved on the tool's pipes)", addrs[i][j], got[i][j], want[i][j])
+			}
+		}
+	}
+	if res.Switches > 0 {
+		x.probe("switch_during_tool_access")
+		x.nontriv[fmt.Sprintf("tools:%v:%v:%016x", useLLVM, addrs, res.SwitchSig)] = true
+	}
+	x.sample = map[string]interface{}{"mode": "tools", "llvm_symbolizer": useLLVM, "addresses": addrs, "switches": res.Switches}
 	return nil
 }
